@@ -4,7 +4,7 @@
 (*                                                                                                  *)
 (* A container, as a decoder sees it after Bech32m and F4Jumble^-1:                                 *)
 (*    kind      "addr" | "fvk" | "ivk"         (decided by the human-readable part)                 *)
-(*    items     sequence of [tc, lenOK]        typecode CLASS and whether the data has the exact    *)
+(*    items     sequence of [n, lenOK]         typecode NUMBER and whether the data has the exact   *)
 (*                                             length ZIP 316 prescribes for that typecode          *)
 (*    padding   "hrp" | "wrong"                the last 16 bytes = HRP zero-padded to 16 bytes?     *)
 (*    size      length in bytes of the raw encoding including the padding                           *)
@@ -16,12 +16,22 @@ EXTENDS Naturals, Sequences, FiniteSets, TLC
 
 Kinds == {"addr", "fvk", "ivk"}
 
-\* Typecode classes, in the order of the numbers they stand for:
-\*   p2pkh 0, p2sh 1, sapling 2, orchard 3, unkLo 4..0xFFFF, unkHi 0x10000..0x02000000,
+\* A typecode is a number.  Its CLASS decides how a consumer treats it:
+\*   p2pkh 0, p2sh 1, sapling 2, orchard 3, unknown 4..0x02000000 (split in two intervals unkLo 4..0xFFFF and
+\*   unkHi 0x10000..0x02000000 only so that the enumeration has two unknown representatives),
 \*   invalid > 0x02000000 (not a typecode at all)
+MaxTypecode == 33554432
 TCs == << "p2pkh", "p2sh", "sapling", "orchard", "unkLo", "unkHi", "invalid" >>
 TC == {TCs[i] : i \in 1..Len(TCs)}
 Ord(tc) == CHOOSE i \in 1..Len(TCs) : TCs[i] = tc
+TcClass(n) == CASE n = 0 -> "p2pkh" [] n = 1 -> "p2sh" [] n = 2 -> "sapling" [] n = 3 -> "orchard"
+                [] n >= 4 /\ n <= 65535 -> "unkLo"
+                [] n > 65535 /\ n <= MaxTypecode -> "unkHi"
+                [] OTHER -> "invalid"
+\* one representative number per class (the enumeration uses these; the order of the classes is the order of
+\* the numbers, so any other choice inside the intervals gives the same verdicts)
+Rep(tc) == CASE tc = "p2pkh" -> 0 [] tc = "p2sh" -> 1 [] tc = "sapling" -> 2 [] tc = "orchard" -> 3
+             [] tc = "unkLo" -> 4 [] tc = "unkHi" -> 65536 [] tc = "invalid" -> MaxTypecode + 1
 
 IsKnown(tc) == tc \in {"p2pkh", "p2sh", "sapling", "orchard"}
 IsUnknown(tc) == tc \in {"unkLo", "unkHi"}
@@ -40,7 +50,9 @@ KnownLen(kind, tc) ==
       [] kind = "ivk" /\ tc = "orchard" -> 64
       [] OTHER -> 0
 
-Item == [tc : TC, lenOK : BOOLEAN]
+\* an item: its typecode number and whether the data has the exact prescribed length
+Item == [n : Nat, lenOK : BOOLEAN]
+Cls(it) == TcClass(it.n)
 
 \* ------------------------------------------------------------------ the rule
 \* F4Jumble is defined on 48 .. 4194368 bytes only
@@ -51,12 +63,12 @@ SizeOK(n) == JumbleMin <= n /\ n <= JumbleMax
 \* an item a consumer can take: a typecode at all, allowed in this kind of container, and -- if the
 \* consumer knows the typecode -- of exactly the prescribed length.  Unknown items are taken as they are.
 ItemOK(kind, it) ==
-    /\ it.tc # "invalid"
-    /\ IsKnown(it.tc) => (KnownLen(kind, it.tc) > 0 /\ it.lenOK)
+    /\ Cls(it) # "invalid"
+    /\ IsKnown(Cls(it)) => (KnownLen(kind, Cls(it)) > 0 /\ it.lenOK)
 
-Ascending(items) == \A i, j \in 1..Len(items) : i < j => Ord(items[i].tc) < Ord(items[j].tc)
-NotBoth(items) == ~ \E i, j \in 1..Len(items) : items[i].tc = "p2pkh" /\ items[j].tc = "p2sh"
-HasShielded(items) == \E i \in 1..Len(items) : ~IsTransparent(items[i].tc)
+Ascending(items) == \A i, j \in 1..Len(items) : i < j => items[i].n < items[j].n
+NotBoth(items) == ~ \E i, j \in 1..Len(items) : Cls(items[i]) = "p2pkh" /\ Cls(items[j]) = "p2sh"
+HasShielded(items) == \E i \in 1..Len(items) : ~IsTransparent(Cls(items[i]))
 
 ItemsWellFormed(kind, items) ==
     /\ \A i \in 1..Len(items) : ItemOK(kind, items[i])
@@ -80,8 +92,8 @@ Reasons(c) ==
   \cup (IF c.padding # "hrp" THEN {"padding"} ELSE {})
   \cup (IF c.struct # "ok" THEN {"struct"} ELSE {})
   \cup (IF \E i \in 1..n : ~ItemOK(c.kind, its[i]) THEN {"item"} ELSE {})
-  \cup (IF \E i, j \in 1..n : i < j /\ Ord(its[i].tc) > Ord(its[j].tc) THEN {"order"} ELSE {})
-  \cup (IF \E i, j \in 1..n : i < j /\ its[i].tc = its[j].tc THEN {"dup"} ELSE {})
+  \cup (IF \E i, j \in 1..n : i < j /\ its[i].n > its[j].n THEN {"order"} ELSE {})
+  \cup (IF \E i, j \in 1..n : i < j /\ its[i].n = its[j].n THEN {"dup"} ELSE {})
   \cup (IF ~NotBoth(its) THEN {"both"} ELSE {})
   \cup (IF ~HasShielded(its) THEN {"onlyT"} ELSE {})
 
@@ -89,7 +101,7 @@ Reasons(c) ==
 \* (`try_from_items`: the items are sorted by typecode first, so only the SET matters)
 SetValid(kind, items) ==
     /\ \A i \in 1..Len(items) : ItemOK(kind, items[i])
-    /\ \A i, j \in 1..Len(items) : i # j => items[i].tc # items[j].tc
+    /\ \A i, j \in 1..Len(items) : i # j => items[i].n # items[j].n
     /\ NotBoth(items)
     /\ HasShielded(items)
 
@@ -97,11 +109,11 @@ Permuted(items, p) == [i \in 1..Len(items) |-> items[p[i]]]
 Perms(n) == {p \in [1..n -> 1..n] : \A i, j \in 1..n : i # j => p[i] # p[j]}
 SortedByTypecode(items) ==
     CHOOSE s \in {Permuted(items, p) : p \in Perms(Len(items))} :
-        \A i, j \in 1..Len(s) : i < j => Ord(s[i].tc) <= Ord(s[j].tc)
+        \A i, j \in 1..Len(s) : i < j => s[i].n <= s[j].n
 
 \* ------------------------------------------------------------------ theorems (checked by TLC per container)
 \* T1  a well-formed container has pairwise different typecodes
-ThUnique(c) == WellFormed(c) => \A i, j \in 1..Len(c.items) : i # j => c.items[i].tc # c.items[j].tc
+ThUnique(c) == WellFormed(c) => \A i, j \in 1..Len(c.items) : i # j => c.items[i].n # c.items[j].n
 \* T2  of all orders of the same items exactly one is accepted, the one sorted by typecode: a permuted
 \*     container is rejected, never silently canonicalised; and some order is accepted iff the set is valid
 ThOneOrder(c) ==
@@ -111,18 +123,19 @@ ThOneOrder(c) ==
         /\ (good # {}) = SetValid(c.kind, c.items)
         /\ SetValid(c.kind, c.items) => ItemsWellFormed(c.kind, SortedByTypecode(c.items))
         /\ ItemsWellFormed(c.kind, c.items) => SortedByTypecode(c.items) = c.items
-\* T3  between 1 and 5 items; never a P2SH item in a viewing key
+\* T3  at least one item, at most one transparent item, and it comes first; never a P2SH item in a viewing key
 ThShape(c) ==
-    WellFormed(c) => /\ Len(c.items) \in 1..5
-                     /\ (c.kind # "addr" => \A i \in 1..Len(c.items) : c.items[i].tc # "p2sh")
+    WellFormed(c) => /\ Len(c.items) >= 1
+                     /\ \A i \in 1..Len(c.items) : IsTransparent(Cls(c.items[i])) => i = 1
+                     /\ (c.kind # "addr" => \A i \in 1..Len(c.items) : Cls(c.items[i]) # "p2sh")
 \* T4  rejected iff some reason applies
 ThReasons(c) == WellFormed(c) = (Reasons(c) = {})
 \* T5  a well-formed container without unknown items always fits the jumble domain on its own: the
 \*     size clause can only ever decide for containers with unknown items (or ill-formed ones)
-RawLenKnown(c) == LET f[i \in 0..Len(c.items)] == IF i = 0 THEN 16 ELSE f[i - 1] + 2 + KnownLen(c.kind, c.items[i].tc)
+RawLenKnown(c) == LET f[i \in 0..Len(c.items)] == IF i = 0 THEN 16 ELSE f[i - 1] + 2 + KnownLen(c.kind, Cls(c.items[i]))
                   IN  f[Len(c.items)]
 ThSizeFree(c) ==
-    (ItemsWellFormed(c.kind, c.items) /\ \A i \in 1..Len(c.items) : IsKnown(c.items[i].tc)) => SizeOK(RawLenKnown(c))
+    (ItemsWellFormed(c.kind, c.items) /\ \A i \in 1..Len(c.items) : IsKnown(Cls(c.items[i]))) => SizeOK(RawLenKnown(c))
 
 Theorems(c) == ThUnique(c) /\ ThOneOrder(c) /\ ThShape(c) /\ ThReasons(c) /\ ThSizeFree(c)
 ================================================================================
